@@ -33,7 +33,9 @@ P = {'id': 'C13',
               'record_fields_law',
               'versioned_record_law',
               'vs_accepted_is_record',
-              'vs_same_version_accepts'],
+              'vs_same_version_accepts',
+              'writers_concat',
+              'writers_flushed'],
  'trusted': ['modelled (M+S): src/io/var_int.rs (VarInt, SignedVarInt), src/io/var_int_variants.rs (all 7 strategies, single values and sequences); '
              'src/io/simd_encoding/varint.rs (batch = concatenation of scalar LEB128); src/io/data_output.rs / data_input.rs item formats (fixed-width LE, '
              'varint, length-prefixed bytes/strings); src/io/endian.rs EndianIO byte layouts (LE/BE, any width) and byte swap; Option / Vec (u32 count) / '
